@@ -38,6 +38,8 @@ func (o OpC03) String() string {
 		return fmt.Sprintf("%s(%d)", o.Kind, o.V)
 	case "tpd", "ext":
 		return fmt.Sprintf("%s(%d bytes)", o.Kind, len(o.Data))
+	case "tpdOwn", "extOwn":
+		return fmt.Sprintf("%s(window %#x)", o.Kind, o.V)
 	}
 	return o.Kind
 }
@@ -51,7 +53,7 @@ const c03MaxPCR = uint64(1)<<33*300 - 1
 
 func genC03Op(t *rapid.T, a *ref.AF) OpC03 {
 	afLen := a.Len
-	kinds := []string{"disc", "ra", "esp", "hasPCR", "hasOPCR", "hasSplice", "hasTPD", "hasExt", "hasTPD", "hasExt", "pcr", "opcr", "splice", "tpd", "ext", "tpd", "ext", "copyAF", "copyOwnAF"}
+	kinds := []string{"disc", "ra", "esp", "hasPCR", "hasOPCR", "hasSplice", "hasTPD", "hasExt", "hasTPD", "hasExt", "pcr", "opcr", "splice", "tpd", "ext", "tpd", "ext", "copyAF", "copyOwnAF", "tpdOwn", "extOwn"}
 	o := OpC03{Kind: rapid.SampledFrom(kinds).Draw(t, "op")}
 	switch o.Kind {
 	case "disc", "ra", "esp", "hasPCR", "hasOPCR", "hasSplice", "hasTPD", "hasExt":
@@ -62,6 +64,9 @@ func genC03Op(t *rapid.T, a *ref.AF) OpC03 {
 		o.V = base*300 + ext
 	case "splice":
 		o.V = uint64(rapid.Byte().Draw(t, "sc"))
+	case "tpdOwn", "extOwn":
+		// a window of the field's current value, as the function-style getter returns it (a sub-slice of the packet), handed back to the setter
+		o.V = uint64(rapid.IntRange(0, 0xFFFF).Draw(t, "own-window"))
 	case "tpd", "ext":
 		// room for this field's data given everything else currently in the model
 		other := a.Content()
@@ -171,6 +176,13 @@ func c03Fits(a *ref.AF) bool { return a.Content() <= a.Len }
 // c03Apply computes the expected outcome of op on model a (a copy is edited).
 // It returns the new logical field, whether an error is expected, and which
 // fixed field (if any) became present without a defined value.
+// c03Window maps a drawn value to a window [lo,hi) of a value of n bytes.
+func c03Window(v uint64, n int) (int, int) {
+	lo := int(v&0xFF) % (n + 1)
+	hi := lo + int(v>>8)%(n-lo+1)
+	return lo, hi
+}
+
 // c03SourceEmpty reports whether the source packet of a copyAF op has adaptation_field_length 0.
 func c03SourceEmpty(o OpC03) bool { return len(o.Src) == 188 && o.Src[3]&0x20 != 0 && o.Src[4] == 0 }
 
@@ -276,6 +288,22 @@ func c03Apply(a *ref.AF, o OpC03) (na *ref.AF, wantErr bool, undefined string, s
 		src.Len = a.Len
 		sizeChange = src.Content() != a.Content()
 		na = src
+	case "tpdOwn", "extOwn":
+		cur := na.TPD
+		if o.Kind == "extOwn" {
+			cur = na.Ext
+		}
+		if cur == nil {
+			return a, false, "", false // nothing to hand back: the call is not made
+		}
+		lo, hi := c03Window(o.V, len(*cur))
+		data := clone((*cur)[lo:hi])
+		sizeChange = len(*cur) != len(data)
+		if o.Kind == "tpdOwn" {
+			na.TPD = hexp(data)
+		} else {
+			na.Ext = hexp(data)
+		}
 	case "copyOwnAF":
 		// the packet's own adaptation field handed back to it: every logical value stays what it is
 	default:
@@ -331,6 +359,26 @@ func c03Call(p *packet.Packet, o OpC03) error {
 			return errC03ArgWritten
 		}
 		return err
+	case "tpdOwn", "extOwn":
+		var cur []byte
+		var gerr error
+		if o.Kind == "tpdOwn" {
+			cur, gerr = adaptationfield.TransportPrivateData(p)
+		} else {
+			// only the method API reads the extension; its result starts with the length byte (known finding D-AF4): skip it
+			cur, gerr = af.AdaptationFieldExtension()
+			if gerr == nil && len(cur) >= 1 {
+				cur = cur[1:]
+			}
+		}
+		if gerr != nil {
+			return nil // field absent: the model makes no call either
+		}
+		lo, hi := c03Window(o.V, len(cur))
+		if o.Kind == "tpdOwn" {
+			return af.SetTransportPrivateData(cur[lo:hi])
+		}
+		return af.SetAdaptationFieldExtension(cur[lo:hi])
 	case "copyOwnAF":
 		own, err := p.AdaptationField()
 		if err != nil {
@@ -621,7 +669,7 @@ func checkC03(c CaseC03, x *hx.Ctx) *hx.Failure {
 var propC03 = hx.Register(hx.Prop[CaseC03]{ID: "C03", Gen: genC03, Check: checkC03})
 
 func c03Rule() {
-	hx.Rec("C03").SetRule("cases: a well-formed packet with a non-empty adaptation field (af_len 1..182 next to a payload, 183 alone; af_len biased to 1,2,7,8,13,14,20,181,182; any fitting subset of optional fields) + a history of up to 60 (on average 15) setter calls (three flag setters, five presence toggles in both polarities incl. repeats, SetPCR/SetOPCR with any value < 2^33*300, SetSpliceCountdown, SetTransportPrivateData/SetAdaptationFieldExtension with lengths biased to 0, exactly-fits and one-too-many, SetAdaptationField from another generated packet or with the packet's own adaptation field). After every step all 188 bytes are compared with the reference serialisation of the model and every getter of both APIs with the model; refused calls must leave the packet byte-identical; calls that fit must succeed. Enumerated: all toggle histories of length <= 3 from 8 af_len values x 32 initial flag subsets. Non-trivial: >= 1 size-changing success and >= 1 of {refused call, removal of a non-empty variable field, repeated toggle, fill to exactly af_len, successful copy of a whole field}.",
+	hx.Rec("C03").SetRule("cases: a well-formed packet with a non-empty adaptation field (af_len 1..182 next to a payload, 183 alone; af_len biased to 1,2,7,8,13,14,20,181,182; any fitting subset of optional fields) + a history of up to 60 (on average 15) setter calls (three flag setters, five presence toggles in both polarities incl. repeats, SetPCR/SetOPCR with any value < 2^33*300, SetSpliceCountdown, SetTransportPrivateData/SetAdaptationFieldExtension with lengths biased to 0, exactly-fits and one-too-many, SetAdaptationField from another generated packet or with the packet's own adaptation field; private data / extension set to a window of their own current value as the function-style getter returns it). After every step all 188 bytes are compared with the reference serialisation of the model and every getter of both APIs with the model; refused calls must leave the packet byte-identical; calls that fit must succeed. Enumerated: all toggle histories of length <= 3 from 8 af_len values x 32 initial flag subsets. Non-trivial: >= 1 size-changing success and >= 1 of {refused call, removal of a non-empty variable field, repeated toggle, fill to exactly af_len, successful copy of a whole field}.",
 		"only the non-nil-ness of errors is asserted, not which sentinel",
 		"adaptation-field-only packets have af_len 183; the source of SetAdaptationField is a well-formed packet with an adaptation field (possibly of length 0: then nothing is set afterwards, or the call is refused without effect)",
 		"a PCR/OPCR/splice field that became present without receiving a value has no defined contents (re-read from the packet)")
